@@ -442,7 +442,8 @@ Record NK (s : st) : Prop := {
   k_cap : forall v r, loops s = v :: r -> idle_cap v <> None -> marked v = true ;
   k_mark : active s = true -> idle_since s <> None -> count is_reloaded (tasks s) = 0%nat ->
            exists v, loops s = [v] /\ marked v = true ;
-  k_relbusy : rel_busy (g s) = 0%nat }.
+  k_relbusy : rel_busy (g s) = 0%nat ;
+  k_lostretries : lost_retries (g s) = 0%nat }.
 
 Lemma NK_init : NK init.
 Proof. constructor; cbn; intros; auto; try lia; try discriminate; try congruence. Qed.
@@ -460,7 +461,7 @@ Proof. destruct p; cbn; congruence. Qed.
 
 Lemma NK_task tau s i s0 : GInv s -> NK s -> race_now s = false -> task_step tau s i = Some s0 -> NK s0.
 Proof.
-  intros [G1 G2 G3 G4 G5 G6 G7 G8 G9 G10] [K1 K2 K3 K4 K5 KV KC KU KR] Hrace H. unfold task_step in H.
+  intros [G1 G2 G3 G4 G5 G6 G7 G8 G9 G10] [K1 K2 K3 K4 K5 KV KC KU KR KL] Hrace H. unfold task_step in H.
   destruct (nth_error (tasks s) i) as [p|] eqn:Hn; [|discriminate].
   pose proof (fun f p' => count_upd f _ _ p' _ Hn) as CU.
   pose proof (count_le is_mid holds (tasks s) holds_mid) as Hmh.
@@ -517,8 +518,8 @@ Proof.
     + constructor; cbn; rewrite ?Hl; intros; auto; try congruence.
       all: try (apply K1; specialize (CU is_reloading Done); cbn in CU; lia).
       all: try (apply K2; specialize (CU is_breplay Done); cbn in CU; lia).
-      * inversion H; subst. cbn in H0. eapply KV; eauto.
-      * inversion H; subst. cbn in H0. eapply KC; eauto.
+      * inversion H; subst. cbn in *. exact (KV _ _ eq_refl H0).
+      * inversion H; subst. cbn in *. exact (KC _ _ eq_refl H0).
       * destruct KU as (v0 & Hv0 & Hm0); auto.
         { specialize (CU is_reloaded Done); cbn in CU; lia. }
         inversion Hv0; subst. eexists. split; [reflexivity|]. cbn. exact Hm0.
@@ -555,7 +556,8 @@ Proof.
       destruct (KV _ _ Hv Hm) as (Hb & Hrt).
       assert (Hnb : has_busy s = false).
       { unfold has_busy. rewrite Hb, Hv. cbn. rewrite Hrt. reflexivity. }
-      constructor; cbn; rewrite ?Hnb; intros; auto; try congruence; try lia.
+      assert (Hsr : sum_retries (loops s) = 0%nat) by (rewrite Hv; cbn; lia).
+      constructor; cbn; rewrite ?Hnb, ?Hsr; intros; auto; try congruence; try lia.
       all: try (destruct K2 as (? & ?); [specialize (CU is_breplay Done); cbn in CU; lia|congruence]).
     + constructor; cbn; intros; auto; try congruence.
       all: try (apply K1; specialize (CU is_reloading Done); cbn in CU; lia).
@@ -578,4 +580,701 @@ Proof.
       * inversion H; subst. cbn in H0. congruence.
     + apply run_workflow_fail in Hrw. destruct Hrw as (Hl & _). specialize (G2 Ha). contradiction.
   - discriminate.
+Qed.
+
+Lemma loops_active s v r : GInv s -> loops s = v :: r -> active s = true /\ r = [].
+Proof.
+  intros [G1 G2 _ _ _ _ _ _ _ _] Hl. rewrite Hl in *. split.
+  - destruct (active s); [reflexivity|specialize (G2 eq_refl); discriminate].
+  - destruct r; [reflexivity|cbn in G1; lia].
+Qed.
+
+Lemma NK_step0 tau s a s0 : GInv s -> NK s -> race_now s = false -> step0 tau s a = Some s0 -> NK s0.
+Proof.
+  intros GI NKs Hrace H. destruct a; cbn [step0] in H.
+  - (* Advance *)
+    destruct (Z.leb 0 dt); [|discriminate]. inv_some H.
+    destruct NKs as [K1 K2 K3 K4 K5 KV KC KU KR KL]. constructor; cbn; auto.
+  - (* Start *)
+    destruct (started s) eqn:Hs; [discriminate|]. inv_some H.
+    destruct GI as [G1 G2 G3 G4 G5 G6 G7 G8 G9 G10]. destruct (G4 Hs) as (Hl & Ht & Hr & Ha & Hrel).
+    destruct NKs as [K1 K2 K3 K4 K5 KV KC KU KR KL]. destruct K5 as (K5a & K5b).
+    constructor; cbn; rewrite ?Ht; cbn; intros; auto; try congruence; try lia.
+    all: try (inversion H; subst; cbn in *; congruence).
+    all: try (split; [specialize (K5b Ha); lia|discriminate]).
+  - (* Send *)
+    destruct (started s); [|discriminate]. inv_some H.
+    destruct NKs as [K1 K2 K3 K4 K5 KV KC KU KR KL].
+    constructor; cbn; rewrite ?count_app; cbn; intros; auto.
+    all: try (apply K1; lia).
+    all: try (apply K2; lia).
+    all: try (apply KU; auto; lia).
+    all: eauto.
+  - eapply NK_task; eauto.
+  - (* EPull *)
+    apply tick_inv in H. destruct H as (v & r & k & v' & Hl & Hc & Hf & ->).
+    destruct (loops_active _ _ _ GI Hl) as (Ha & ->).
+    destruct (mail v) as [|e m]; inversion Hf; subst; clear Hf.
+    destruct NKs as [K1 K2 K3 K4 K5 KV KC KU KR KL].
+    destruct (marked v) eqn:Hm; constructor; cbn; intros; auto; try congruence.
+    all: try (inversion H; subst; cbn in *; congruence).
+    all: try (destruct (K2 H); congruence).
+    destruct (KU H H0 H1) as (v0 & Hv0 & Hm0). rewrite Hl in Hv0. inversion Hv0; subst. congruence.
+  - (* EDone *)
+    destruct (busy s) as [|b] eqn:Hb; [discriminate|].
+    apply tick_inv in H. destruct H as (v & r & k & v' & Hl & Hc & Hf & ->).
+    destruct (loops_active _ _ _ GI Hl) as (Ha & ->).
+    inversion Hf; subst; clear Hf.
+    destruct NKs as [K1 K2 K3 K4 K5 KV KC KU KR KL].
+    destruct (marked v) eqn:Hm; constructor; cbn; intros; auto; try congruence.
+    all: try (inversion H; subst; cbn in *; congruence).
+    all: try (destruct (K2 H); congruence).
+    destruct (KU H H0 H1) as (v0 & Hv0 & Hm0). rewrite Hl in Hv0. inversion Hv0; subst. congruence.
+  - (* EWake *)
+    destruct is_retry; apply tick_inv in H; destruct H as (v & r & k & v' & Hl & Hc & Hf & ->);
+    destruct (loops_active _ _ _ GI Hl) as (Ha & ->);
+    [destruct (retries v) as [|n]|destruct (sched v) as [|n]]; inversion Hf; subst; clear Hf;
+    destruct NKs as [K1 K2 K3 K4 K5 KV KC KU KR KL];
+    (destruct (marked v) eqn:Hm; constructor; cbn; intros; auto; try congruence;
+     try (inversion H; subst; cbn in *; congruence);
+     try (destruct (K2 H); congruence);
+     try (destruct (KU H H0 H1) as (v0 & Hv0 & Hm0); rewrite Hl in Hv0; inversion Hv0; subst; congruence)).
+  - (* EIdleDecide *)
+    destruct (Nat.eqb (busy s) 0 && running s) eqn:Hg; [|discriminate].
+    apply andb_prop in Hg. destruct Hg as (Hb & Hrun). apply Nat.eqb_eq in Hb.
+    apply with_head_inv in H. destruct H as (v & r & k & v' & Hl & Hf & ->).
+    destruct (loops_active _ _ _ GI Hl) as (Ha & ->).
+    destruct (idle_cap v); [discriminate|]. destruct (retries v) eqn:Hrt; inversion Hf; subst; clear Hf.
+    destruct NKs as [K1 K2 K3 K4 K5 KV KC KU KR KL].
+    constructor; cbn; intros; auto; try congruence.
+    + inversion H; subst. cbn. auto.
+    + inversion H; subst. reflexivity.
+    + eexists. split; reflexivity.
+  - (* EIdleWrite *)
+    apply with_head_inv in H. destruct H as (v & r & k & v' & Hl & Hf & ->).
+    destruct (loops_active _ _ _ GI Hl) as (Ha & ->).
+    destruct (idle_cap v) as [t|] eqn:Hc; inversion Hf; subst; clear Hf.
+    destruct NKs as [K1 K2 K3 K4 K5 KV KC KU KR KL].
+    assert (Hm : marked v = true) by (eapply KC; [exact Hl|congruence]).
+    constructor; cbn; rewrite ?count_app; cbn; intros; auto; try congruence.
+    + apply K1. lia.
+    + destruct K2; [lia|congruence].
+    + inversion H; subst. cbn in *. exact (KV _ _ Hl H0).
+    + inversion H; subst. cbn in *. congruence.
+    + eexists. split; [reflexivity|]. exact Hm.
+  - (* EFinish *)
+    destruct (busy s) as [|b] eqn:Hb; [discriminate|].
+    destruct (loops s) as [|v r] eqn:Hl; [discriminate|].
+    destruct (idle_cap v) eqn:Hc; [discriminate|]. inv_some H.
+    destruct (loops_active _ _ _ GI Hl) as (Ha & ->).
+    destruct NKs as [K1 K2 K3 K4 K5 KV KC KU KR KL].
+    constructor; cbn; intros; auto; try congruence.
+    + destruct (KU H H0 H1) as (v0 & Hv0 & Hm0).
+      destruct (KV _ _ Hv0 Hm0). congruence.
+  - (* Crash *)
+    inv_some H. destruct NKs as [K1 K2 K3 K4 K5 KV KC KU KR KL].
+    constructor; cbn; rewrite ?count_done by reflexivity; intros; auto; try congruence; try lia.
+  - (* Restart *)
+    destruct (resumed s); [discriminate|].
+    destruct NKs as [K1 K2 K3 K4 K5 KV KC KU KR KL].
+    destruct (running s && match idle_since s with None => true | Some _ => false end && negb (active s)) eqn:Hc;
+      inv_some H.
+    + apply andb_prop in Hc. destruct Hc as (Hc & Hna). apply andb_prop in Hc. destruct Hc as (Hrun & Hi).
+      assert (Ha : active s = false) by (destruct (active s); [discriminate|reflexivity]).
+      assert (Hi' : idle_since s = None) by (destruct (idle_since s); [discriminate|reflexivity]).
+      constructor; cbn; rewrite ?count_app; cbn; intros; auto; try congruence.
+      all: try (apply K1; lia).
+      all: eauto.
+    + constructor; cbn; intros; auto; eauto.
+Qed.
+
+Lemma step0_raced tau s a s0 : step0 tau s a = Some s0 -> raced (g s0) = raced (g s).
+Proof.
+  intro H. destruct a; cbn [step0] in H.
+  - destruct (Z.leb 0 dt); [|discriminate]. inv_some H. reflexivity.
+  - destruct (started s); [discriminate|]. inv_some H. reflexivity.
+  - destruct (started s); [|discriminate]. inv_some H. reflexivity.
+  - unfold task_step in H. destruct (nth_error (tasks s) i) as [p|]; [|discriminate].
+    destruct p; try discriminate;
+      try (destruct (lock_free s); [|discriminate]); try (destruct (Z.leb due (now s)); [|discriminate]);
+      try (inv_some H; reflexivity).
+    + unfold run_workflow in H. destruct (loops s); inv_some H; reflexivity.
+    + inv_some H. unfold put. destruct (loops s); [destruct (running s)|]; reflexivity.
+    + inv_some H. destruct (release_check tau s); reflexivity.
+    + unfold run_workflow in H. destruct (loops s); inv_some H; reflexivity.
+  - apply tick_inv in H. destruct H as (v & r & k & v' & Hl & Hc & Hf & ->).
+    destruct (mail v); inversion Hf; subst. destruct (marked v); reflexivity.
+  - destruct (busy s); [discriminate|]. apply tick_inv in H. destruct H as (v & r & k & v' & Hl & Hc & Hf & ->).
+    inversion Hf; subst. destruct (marked v); reflexivity.
+  - destruct is_retry; apply tick_inv in H; destruct H as (v & r & k & v' & Hl & Hc & Hf & ->);
+    [destruct (retries v)|destruct (sched v)]; inversion Hf; subst; destruct (marked v); reflexivity.
+  - destruct (Nat.eqb (busy s) 0 && running s); [|discriminate].
+    apply with_head_inv in H. destruct H as (v & r & k & v' & Hl & Hf & ->).
+    destruct (idle_cap v); [discriminate|]. destruct (retries v); inversion Hf; subst. reflexivity.
+  - apply with_head_inv in H. destruct H as (v & r & k & v' & Hl & Hf & ->).
+    destruct (idle_cap v); inversion Hf; subst. reflexivity.
+  - destruct (busy s); [discriminate|]. destruct (loops s) as [|v r]; [discriminate|].
+    destruct (idle_cap v); [discriminate|]. inv_some H. reflexivity.
+  - inv_some H. reflexivity.
+  - destruct (resumed s); [discriminate|].
+    destruct (running s && match idle_since s with None => true | Some _ => false end && negb (active s));
+      inv_some H; reflexivity.
+Qed.
+
+(* the combined invariant carried along a run *)
+Definition RInv (s : st) : Prop := race_now s = true -> raced (g s) = true.
+Definition Inv (s : st) : Prop := GInv s /\ RInv s /\ (raced (g s) = false -> NK s).
+
+Lemma Inv_init : Inv init.
+Proof. split; [apply GInv_init|]. split; [intro H; discriminate|]. intros _. apply NK_init. Qed.
+
+Lemma NK_set_raced s b : NK s -> NK (set_raced s b).
+Proof. intros [K1 K2 K3 K4 K5 KV KC KU KR KL]. constructor; cbn; auto. Qed.
+
+Lemma Inv_step tau s a s' : Inv s -> step tau s a = Some s' -> Inv s'.
+Proof.
+  intros (GI & RI & NI) H. split; [eapply GInv_step; eauto|].
+  apply step_split in H. destruct H as (s0 & H0 & ->). split.
+  - unfold RInv. cbn. unfold race_now. cbn. fold (race_now s0). intros ->. apply orb_true_r.
+  - cbn. intro Hr. apply orb_false_iff in Hr. destruct Hr as (Hr0 & Hrn).
+    rewrite (step0_raced _ _ _ _ H0) in Hr0.
+    apply NK_set_raced. eapply NK_step0; eauto.
+    destruct (race_now s) eqn:E; [|reflexivity]. specialize (RI E). congruence.
+Qed.
+
+Lemma Inv_run tau : forall tr s s', Inv s -> run tau s tr = Some s' -> Inv s'.
+Proof.
+  induction tr as [|a r IH]; cbn; intros s s' I H.
+  - injection H as <-. exact I.
+  - destruct (step tau s a) as [s1|] eqn:Hs; [|discriminate]. eapply IH; [|exact H]. eapply Inv_step; eauto.
+Qed.
+
+Theorem reachable_Inv tau tr s : run tau init tr = Some s -> Inv s.
+Proof. apply Inv_run. apply Inv_init. Qed.
+
+(* ---------- C36: a marked-idle run in memory always has a releaser that will fire ---------- *)
+Definition releaser (due : Z) (p : pc) : Prop := p = RSleep due \/ p = RWant due \/ p = RHold due.
+Definition TP (tau : Z) (s : st) : Prop :=
+  active s = true -> forall t, idle_since s = Some t -> count is_reloaded (tasks s) = 0%nat ->
+  exists due p, In p (tasks s) /\ releaser due p /\ t + tau <= due.
+
+Lemma releaser_not p due q : releaser due p -> (forall d, q <> RSleep d) -> (forall d, q <> RWant d) ->
+  (forall d, q <> RHold d) -> p <> q.
+Proof.
+  intros [ -> | [ -> | -> ] ] H1 H2 H3 E; subst; [eapply H1|eapply H2|eapply H3]; reflexivity.
+Qed.
+
+Lemma TP_step0 tau s a s0 : GInv s -> NK s -> race_now s = false -> TP tau s ->
+  step0 tau s a = Some s0 -> TP tau s0.
+Proof.
+  intros GI NKs Hrace T H. unfold TP in *. destruct a; cbn [step0] in H.
+  - destruct (Z.leb 0 dt); [|discriminate]. inv_some H. cbn. exact T.
+  - destruct (started s); [discriminate|]. inv_some H. cbn. intros _ t Ht. discriminate.
+  - destruct (started s); [|discriminate]. inv_some H. cbn. rewrite count_app. cbn. intros Ha t Ht Hc.
+    destruct (T Ha t Ht) as (due & p & Hin & Hr & Hle); [lia|].
+    exists due, p. split; [apply in_or_app; left; exact Hin|auto].
+  - (* Task *)
+    unfold task_step in H. destruct (nth_error (tasks s) i) as [q|] eqn:Hn; [|discriminate].
+    pose proof (fun f p' => count_upd f _ _ p' _ Hn) as CU.
+    destruct q.
+    + destruct (lock_free s); [|discriminate]. inv_some H. cbn. intros Ha t Ht Hc.
+      destruct (T Ha t Ht) as (due & p & Hin & Hr & Hle).
+      { specialize (CU is_reloaded (if active s then SHold e else SReloading e)).
+        destruct (active s); cbn in CU; lia. }
+      exists due, p. split; [|auto]. eapply in_upd_other; eauto.
+      eapply releaser_not; eauto; discriminate.
+    + inv_some H. cbn. intros _ t Ht. discriminate.
+    + destruct (run_workflow s) as [s1 ok] eqn:Hrw. destruct ok.
+      * apply run_workflow_ok in Hrw. destruct Hrw as (Hl & ->). inv_some H. cbn. intros _ t Ht Hc.
+        specialize (CU is_reloaded (SReloaded e)). cbn in CU. lia.
+      * apply run_workflow_fail in Hrw. destruct Hrw as (Hl & ->). inv_some H. cbn. intros _ t Ht Hc.
+        destruct NKs as [K1 _ _ _ _ _ _ _ _ _]. destruct GI as [_ G2 _ _ _ _ _ _ _ _].
+        assert (Ha : active s = false) by (apply K1; eapply count_nth_pos; eauto).
+        specialize (G2 Ha). contradiction.
+    + inv_some H. cbn. intros _ t Ht. discriminate.
+    + inv_some H. unfold put. destruct (loops s) as [|v r]; [destruct (running s)|]; cbn; intros Ha t Ht Hc;
+      (destruct (T Ha t Ht) as (due & p & Hin & Hr & Hle);
+       [specialize (CU is_reloaded Done); cbn in CU; lia|];
+       exists due, p; split; [|auto]; eapply in_upd_other; eauto;
+       eapply releaser_not; eauto; discriminate).
+    + destruct (Z.leb due (now s)); [|discriminate]. inv_some H. cbn. intros Ha t Ht Hc.
+      destruct (T Ha t Ht) as (due0 & p & Hin & Hr & Hle).
+      { specialize (CU is_reloaded (RWant due)). cbn in CU. lia. }
+      destruct (Z.eq_dec due0 due) as [->|Hne].
+      * exists due, (RWant due). split; [eapply in_upd_self; eauto|]. split; [right; left; reflexivity|exact Hle].
+      * exists due0, p. split; [|auto]. eapply in_upd_other; eauto.
+        destruct Hr as [ -> | [ -> | -> ] ]; congruence.
+    + destruct (lock_free s); [|discriminate]. inv_some H. cbn. intros Ha t Ht Hc.
+      destruct (T Ha t Ht) as (due0 & p & Hin & Hr & Hle).
+      { specialize (CU is_reloaded (RHold due)). cbn in CU. lia. }
+      destruct (Z.eq_dec due0 due) as [->|Hne].
+      * exists due, (RHold due). split; [eapply in_upd_self; eauto|]. split; [right; right; reflexivity|exact Hle].
+      * exists due0, p. split; [|auto]. eapply in_upd_other; eauto.
+        destruct Hr as [ -> | [ -> | -> ] ]; congruence.
+    + inv_some H. destruct (release_check tau s) eqn:Hrc.
+      * cbn. intros Ha. discriminate.
+      * cbn. intros Ha t Ht Hc.
+        destruct (T Ha t Ht) as (due0 & p & Hin & Hr & Hle).
+        { specialize (CU is_reloaded Done). cbn in CU. lia. }
+        assert (Hd : due <= now s).
+        { destruct GI as [_ _ _ _ G5 _ _ _ _ _]. rewrite Forall_forall in G5.
+          exact (G5 _ (nth_error_In _ _ Hn)). }
+        unfold release_check in Hrc. rewrite Ht, Ha in Hrc. rewrite andb_true_r in Hrc.
+        apply Z.leb_gt in Hrc.
+        exists due0, p. split; [|auto]. eapply in_upd_other; eauto.
+        destruct Hr as [ -> | [ -> | -> ] ]; try discriminate. intro E. injection E as ->. lia.
+    + destruct NKs as [_ K2 _ _ _ _ _ _ _ _].
+      destruct K2 as (Ha0 & Hi0); [eapply count_nth_pos; eauto|].
+      destruct (run_workflow s) as [s1 ok] eqn:Hrw. destruct ok.
+      * apply run_workflow_ok in Hrw. destruct Hrw as (Hl & ->). inv_some H. cbn. intros _ t Ht. congruence.
+      * apply run_workflow_fail in Hrw. destruct Hrw as (Hl & ->). inv_some H. cbn. intros _ t Ht. congruence.
+    + discriminate.
+  - apply tick_inv in H. destruct H as (v & r & k & v' & Hl & Hc & Hf & ->).
+    destruct (mail v); inversion Hf; subst. destruct (marked v); cbn; [intros _ t Ht; discriminate|exact T].
+  - destruct (busy s); [discriminate|]. apply tick_inv in H. destruct H as (v & r & k & v' & Hl & Hc & Hf & ->).
+    inversion Hf; subst. destruct (marked v); cbn; [intros _ t Ht; discriminate|exact T].
+  - destruct is_retry; apply tick_inv in H; destruct H as (v & r & k & v' & Hl & Hc & Hf & ->);
+    [destruct (retries v)|destruct (sched v)]; inversion Hf; subst;
+    (destruct (marked v); cbn; [intros _ t Ht; discriminate|exact T]).
+  - destruct (Nat.eqb (busy s) 0 && running s); [|discriminate].
+    apply with_head_inv in H. destruct H as (v & r & k & v' & Hl & Hf & ->).
+    destruct (idle_cap v); [discriminate|]. destruct (retries v); inversion Hf; subst. cbn. exact T.
+  - apply with_head_inv in H. destruct H as (v & r & k & v' & Hl & Hf & ->).
+    destruct (idle_cap v) as [t0|] eqn:Hc; inversion Hf; subst. cbn. intros Ha t Ht _. injection Ht as ->.
+    exists (now s + tau), (RSleep (now s + tau)). split; [apply in_or_app; right; left; reflexivity|].
+    split; [left; reflexivity|].
+    destruct GI as [_ _ _ _ _ G6 _ _ _ _]. rewrite Hl in G6. inversion G6; subst.
+    unfold cap_ok in H1. rewrite Hc in H1. lia.
+  - destruct (busy s); [discriminate|]. destruct (loops s) as [|v r]; [discriminate|].
+    destruct (idle_cap v); [discriminate|]. inv_some H. cbn. exact T.
+  - inv_some H. cbn. intros Ha. discriminate.
+  - destruct (resumed s); [discriminate|].
+    destruct (running s && match idle_since s with None => true | Some _ => false end && negb (active s));
+      inv_some H; cbn; [|exact T].
+    rewrite count_app. cbn. intros Ha t Ht Hc.
+    destruct (T Ha t Ht) as (due & p & Hin & Hr & Hle); [lia|].
+    exists due, p. split; [apply in_or_app; left; exact Hin|auto].
+Qed.
+
+Lemma TP_run tau : forall tr s s', Inv s -> TP tau s -> run tau s tr = Some s' -> raced (g s') = false -> TP tau s'.
+Proof.
+  induction tr as [|a r IH]; cbn; intros s s' I T H Hr.
+  - injection H as <-. exact T.
+  - destruct (step tau s a) as [s1|] eqn:Hs; [|discriminate].
+    pose proof (Inv_step _ _ _ _ I Hs) as I1.
+    assert (Hr1 : raced (g s1) = false).
+    { (* raced is sticky *)
+      clear - H Hr. revert s1 H. induction r as [|b r IH]; cbn; intros s1 H.
+      - injection H as <-. exact Hr.
+      - destruct (step tau s1 b) as [s2|] eqn:Hs; [|discriminate]. specialize (IH _ H).
+        apply step_split in Hs. destruct Hs as (s0 & H0 & ->). cbn in IH. apply orb_false_iff in IH.
+        destruct IH as (IH & _). rewrite (step0_raced _ _ _ _ H0) in IH. exact IH. }
+    eapply IH; [exact I1| |exact H|exact Hr].
+    apply step_split in Hs. destruct Hs as (s0 & H0 & ->). cbn in Hr1. apply orb_false_iff in Hr1.
+    destruct Hr1 as (Hr0 & Hrn). rewrite (step0_raced _ _ _ _ H0) in Hr0.
+    destruct I as (GI & RI & NI).
+    assert (Hrace : race_now s = false).
+    { destruct (race_now s) eqn:E; [|reflexivity]. specialize (RI E). congruence. }
+    pose proof (TP_step0 _ _ _ _ GI (NI Hr0) Hrace T H0) as T0.
+    unfold TP in *. cbn. exact T0.
+Qed.
+
+Lemma TP_init tau : TP tau init.
+Proof. unfold TP. cbn. discriminate. Qed.
+
+(* the releaser fires: when its check runs while the mark it was spawned for is still there *)
+Lemma release_fires tau s i due t :
+  nth_error (tasks s) i = Some (RHold due) -> idle_since s = Some t -> t + tau <= due -> due <= now s ->
+  active s = true ->
+  exists s', step tau s (Task i) = Some s' /\ active s' = false /\ loops s' = [] /\
+             idle_since s' = Some t /\ released (g s') = true.
+Proof.
+  intros Hn Hi Hle Hd Ha. unfold step. cbn [step0]. unfold task_step. rewrite Hn.
+  assert (Hrc : release_check tau s = true).
+  { unfold release_check. rewrite Hi, Ha. rewrite andb_true_r. apply Z.leb_le. lia. }
+  rewrite Hrc. eexists. split; [reflexivity|]. cbn. auto.
+Qed.
+
+(* ---------- partial theorem: truthful idle marks make every release safe ---------- *)
+Definition nowork (s : st) : Prop :=
+  busy s = 0%nat /\ all_mail (loops s) = [] /\ sum_sched (loops s) = 0%nat /\ sum_retries (loops s) = 0%nat.
+
+Lemma has_work_false s : has_work s = false <-> nowork s.
+Proof.
+  unfold has_work, nowork. split.
+  - intro H. apply orb_false_iff in H. destruct H as (Hb & He).
+    apply negb_false_iff in Hb. apply Nat.eqb_eq in Hb. split; [exact Hb|].
+    induction (loops s) as [|v r IH]; cbn in *; [auto|].
+    apply orb_false_iff in He. destruct He as (Hv & Hr). destruct (IH Hr) as (I1 & I2 & I3).
+    unfold vol_work in Hv. apply orb_false_iff in Hv. destruct Hv as (Hv & Hv3).
+    apply orb_false_iff in Hv. destruct Hv as (Hv1 & Hv2).
+    apply negb_false_iff in Hv2, Hv3. apply Nat.eqb_eq in Hv2, Hv3.
+    destruct (mail v); [|discriminate].
+    fold (all_mail r); fold (sum_sched r); fold (sum_retries r). rewrite I1, I2, I3, Hv2, Hv3. auto.
+  - intros (Hb & Hm & Hs & Hr). rewrite Hb. cbn.
+    induction (loops s) as [|v r IH]; cbn in *; [reflexivity|].
+    apply app_eq_nil in Hm. destruct Hm as (Hm1 & Hm2).
+    fold (all_mail r) in Hm2. fold (sum_sched r) in Hs. fold (sum_retries r) in Hr.
+    assert (sched v = 0%nat /\ sum_sched r = 0%nat) as (S1 & S2) by lia.
+    assert (retries v = 0%nat /\ sum_retries r = 0%nat) as (R1 & R2) by lia.
+    rewrite (IH Hm2 S2 R2). unfold vol_work. rewrite Hm1, S1, R1. reflexivity.
+Qed.
+
+Record TM (s : st) : Prop := {
+  tm_mark : idle_since s <> None -> nowork s /\ count is_cleared (tasks s) = 0%nat ;
+  tm_clean : rel_work (g s) = 0%nat /\ lost (g s) = [] /\ lost_timers (g s) = 0%nat /\ lost_retries (g s) = 0%nat }.
+
+Lemma TM_init : TM init.
+Proof. constructor; cbn; auto. intro H. congruence. Qed.
+
+Lemma nowork_head s v r v' :
+  loops s = v :: r -> mail v' = mail v -> sched v' = sched v -> retries v' = retries v ->
+  forall s', busy s' = busy s -> loops s' = v' :: r -> nowork s -> nowork s'.
+Proof.
+  intros Hl Hm Hs Hr s' Hb Hl' (N1 & N2 & N3 & N4). unfold nowork. rewrite Hb, Hl' . rewrite Hl in *.
+  cbn in *. rewrite Hm, Hs, Hr. auto.
+Qed.
+
+Lemma TM_step0 tau s a s0 : TM s -> truthful s a = true -> step0 tau s a = Some s0 -> TM s0.
+Proof.
+  intros [M C] Ht H. destruct a; cbn [step0] in H.
+  - destruct (Z.leb 0 dt); [|discriminate]. inv_some H. constructor; cbn; auto.
+  - destruct (started s); [discriminate|]. inv_some H. constructor; cbn; auto. intro E. congruence.
+  - destruct (started s); [|discriminate]. inv_some H. constructor; cbn; auto. rewrite count_app. cbn.
+    intro E. destruct (M E) as (N & Cc). split; [exact N|lia].
+  - unfold task_step in H. destruct (nth_error (tasks s) i) as [q|] eqn:Hn; [|discriminate].
+    pose proof (fun f p' => count_upd f _ _ p' _ Hn) as CU.
+    destruct q.
+    + destruct (lock_free s); [|discriminate]. inv_some H. constructor; cbn; auto.
+      intro E. destruct (M E) as (N & Cc). split; [exact N|].
+      specialize (CU is_cleared (if active s then SHold e else SReloading e)). destruct (active s); cbn in CU; lia.
+    + inv_some H. constructor; cbn; auto. intro E. congruence.
+    + unfold run_workflow in H. destruct (loops s) as [|v r] eqn:Hl; inv_some H; constructor; cbn; auto.
+      * intro E. destruct (M E) as ((N1 & N2 & N3 & N4) & Cc). rewrite Hl in *. split.
+        -- unfold nowork. cbn. auto.
+        -- specialize (CU is_cleared (SReloaded e)). cbn in CU. lia.
+      * intro E. destruct (M E) as (N & Cc). split; [exact N|].
+        specialize (CU is_cleared Done). cbn in CU. lia.
+    + inv_some H. constructor; cbn; auto. intro E. congruence.
+    + inv_some H.
+      assert (Hi : idle_since s = None).
+      { destruct (idle_since s) eqn:E; [|reflexivity]. destruct M as (_ & Cc); [congruence|].
+        pose proof (count_nth_pos is_cleared _ _ _ Hn eq_refl). lia. }
+      unfold put. destruct (loops s) as [|v r]; [destruct (running s)|]; constructor; cbn; auto;
+        intro E; congruence.
+    + destruct (Z.leb due (now s)); [|discriminate]. inv_some H. constructor; cbn; auto.
+      intro E. destruct (M E) as (N & Cc). split; [exact N|]. specialize (CU is_cleared (RWant due)). cbn in CU. lia.
+    + destruct (lock_free s); [|discriminate]. inv_some H. constructor; cbn; auto.
+      intro E. destruct (M E) as (N & Cc). split; [exact N|]. specialize (CU is_cleared (RHold due)). cbn in CU. lia.
+    + inv_some H. destruct (release_check tau s) eqn:Hrc.
+      * unfold release_check in Hrc. apply andb_prop in Hrc. destruct Hrc as (Hi & Ha).
+        assert (E : idle_since s <> None) by (destruct (idle_since s); discriminate).
+        destruct (M E) as (N & Cc). pose proof N as (N1 & N2 & N3 & N4).
+        apply has_work_false in N. destruct C as (C1 & C2 & C3 & C4).
+        constructor; cbn.
+        -- intros _. split; [unfold nowork; cbn; auto|]. specialize (CU is_cleared Done). cbn in CU. lia.
+        -- rewrite N, N2, N3, N4, C1, C2, C3, C4. auto.
+      * constructor; cbn; auto. intro E. destruct (M E) as (N & Cc). split; [exact N|].
+        specialize (CU is_cleared Done). cbn in CU. lia.
+    + unfold run_workflow in H. destruct (loops s) as [|v r] eqn:Hl; inv_some H; constructor; cbn; auto.
+      * intro E. destruct (M E) as ((N1 & N2 & N3 & N4) & Cc). rewrite Hl in *. split.
+        -- unfold nowork. cbn. auto.
+        -- specialize (CU is_cleared Done). cbn in CU. lia.
+      * intro E. destruct (M E) as (N & Cc). split; [exact N|].
+        specialize (CU is_cleared Done). cbn in CU. lia.
+    + discriminate.
+  - (* EPull: impossible while marked idle; otherwise the mark is None afterwards or was None *)
+    apply tick_inv in H. destruct H as (v & r & k & v' & Hl & Hc & Hf & ->).
+    destruct (mail v) as [|e m] eqn:Hm; inversion Hf; subst; clear Hf.
+    assert (Hi : idle_since s = None).
+    { destruct (idle_since s) eqn:E; [|reflexivity]. destruct M as ((_ & N2 & _) & _); [congruence|].
+      rewrite Hl in N2. cbn in N2. rewrite Hm in N2. discriminate. }
+    destruct (marked v); constructor; cbn; auto; intro E; congruence.
+  - destruct (busy s) as [|b] eqn:Hb; [discriminate|].
+    apply tick_inv in H. destruct H as (v & r & k & v' & Hl & Hc & Hf & ->). inversion Hf; subst; clear Hf.
+    assert (Hi : idle_since s = None).
+    { destruct (idle_since s) eqn:E; [|reflexivity]. destruct M as ((N1 & _) & _); [congruence|]. lia. }
+    destruct (marked v); constructor; cbn; auto; intro E; congruence.
+  - destruct is_retry; apply tick_inv in H; destruct H as (v & r & k & v' & Hl & Hc & Hf & ->).
+    + destruct (retries v) as [|n] eqn:Hr; inversion Hf; subst; clear Hf.
+      assert (Hi : idle_since s = None).
+      { destruct (idle_since s) eqn:E; [|reflexivity]. destruct M as ((_ & _ & _ & N4) & _); [congruence|].
+        rewrite Hl in N4. cbn in N4. lia. }
+      destruct (marked v); constructor; cbn; auto; intro E; congruence.
+    + destruct (sched v) as [|n] eqn:Hr; inversion Hf; subst; clear Hf.
+      assert (Hi : idle_since s = None).
+      { destruct (idle_since s) eqn:E; [|reflexivity]. destruct M as ((_ & _ & N3 & _) & _); [congruence|].
+        rewrite Hl in N3. cbn in N3. lia. }
+      destruct (marked v); constructor; cbn; auto; intro E; congruence.
+  - destruct (Nat.eqb (busy s) 0 && running s); [|discriminate].
+    apply with_head_inv in H. destruct H as (v & r & k & v' & Hl & Hf & ->).
+    destruct (idle_cap v); [discriminate|]. destruct (retries v) eqn:Hr; inversion Hf; subst; clear Hf.
+    constructor; cbn; auto. intro E. destruct (M E) as ((N1 & N2 & N3 & N4) & Cc). split; [|exact Cc].
+    unfold nowork. rewrite Hl in *. cbn in *. rewrite ?Hr in *. auto.
+  - cbn in Ht. apply andb_prop in Ht. destruct Ht as (Hw & Hcl).
+    apply negb_true_iff in Hw, Hcl. apply has_work_false in Hw. apply existsb_count0 in Hcl.
+    apply with_head_inv in H. destruct H as (v & r & k & v' & Hl & Hf & ->).
+    destruct (idle_cap v) eqn:Hc; inversion Hf; subst; clear Hf.
+    constructor; cbn; auto. intros _. rewrite count_app. cbn. split; [|lia].
+    destruct Hw as (N1 & N2 & N3 & N4). unfold nowork. rewrite Hl in *. cbn in *. auto.
+  - destruct (busy s) as [|b] eqn:Hb; [discriminate|]. destruct (loops s) as [|v r] eqn:Hl; [discriminate|].
+    destruct (idle_cap v); [discriminate|]. inv_some H.
+    assert (Hi : idle_since s = None).
+    { destruct (idle_since s) eqn:E; [|reflexivity]. destruct M as ((N1 & _) & _); [congruence|]. lia. }
+    constructor; cbn; auto. intro E. congruence.
+  - inv_some H. constructor; cbn; auto. rewrite count_done by reflexivity.
+    intro E. destruct (M E) as ((N1 & _) & _). split; [unfold nowork; cbn; auto|reflexivity].
+  - destruct (resumed s); [discriminate|].
+    destruct (running s && match idle_since s with None => true | Some _ => false end && negb (active s));
+      inv_some H; constructor; cbn; auto.
+    rewrite count_app. cbn. intro E. destruct (M E) as (N & Cc). split; [exact N|lia].
+Qed.
+
+Lemma TM_set_raced s b : TM s -> TM (set_raced s b).
+Proof. intros [M C]. constructor; cbn; auto. Qed.
+
+Lemma TM_run tau : forall tr s s', TM s -> run_truthful tau s tr = true -> run tau s tr = Some s' -> TM s'.
+Proof.
+  induction tr as [|a r IH]; cbn; intros s s' T Ht H.
+  - injection H as <-. exact T.
+  - apply andb_prop in Ht. destruct Ht as (Ht1 & Ht2).
+    destruct (step tau s a) as [s1|] eqn:Hs; [|discriminate].
+    eapply IH; [|exact Ht2|exact H].
+    apply step_split in Hs. destruct Hs as (s0 & H0 & ->). apply TM_set_raced. eapply TM_step0; eauto.
+Qed.
+
+(* ---------- conservation of events and of scheduled wakeups (every trace) ---------- *)
+Definition occ := count_occ Z.eq_dec.
+Record CInv (s : st) : Prop := {
+  c_events : forall x, occ (delivered (g s)) x =
+     (occ (log s) x + occ (all_mail (loops s)) x + occ (lost (g s)) x + occ (dropped (g s)) x)%nat ;
+  c_timers : t_sched (g s) =
+     (t_woke (g s) + sum_sched (loops s) + sum_retries (loops s) + lost_timers (g s) + lost_retries (g s)
+      + t_dropped (g s))%nat }.
+
+Lemma CInv_init : CInv init.
+Proof. constructor; cbn; auto. Qed.
+
+Ltac occ_norm :=
+  unfold occ, all_mail, sum_sched, sum_retries in *; cbn in *; rewrite ?count_occ_app in *; cbn in *;
+  rewrite ?count_occ_app in *; cbn in *;
+  repeat match goal with
+         | |- context[Z.eq_dec ?a ?b] => destruct (Z.eq_dec a b)
+         | H : context[Z.eq_dec ?a ?b] |- _ => destruct (Z.eq_dec a b)
+         end; try lia.
+Ltac cons_solve CE CT :=
+  constructor; cbn; [let x := fresh "x" in intro x; specialize (CE x); occ_norm | occ_norm].
+
+Lemma CInv_step0 tau s a s0 : GInv s -> CInv s -> step0 tau s a = Some s0 -> CInv s0.
+Proof.
+  intros GI [CE CT] H. destruct a; cbn [step0] in H.
+  - destruct (Z.leb 0 dt); [|discriminate]. inv_some H. constructor; cbn; auto.
+  - destruct (started s) eqn:Hs; [discriminate|]. inv_some H.
+    destruct GI as [_ _ _ G4 _ _ _ _ _ _]. destruct (G4 Hs) as (Hl & _). rewrite Hl in *.
+    cons_solve CE CT.
+  - destruct (started s); [|discriminate]. inv_some H. constructor; cbn; auto.
+  - unfold task_step in H. destruct (nth_error (tasks s) i) as [q|] eqn:Hn; [|discriminate].
+    destruct q.
+    + destruct (lock_free s); [|discriminate]. inv_some H. constructor; cbn; auto.
+    + inv_some H. constructor; cbn; auto.
+    + unfold run_workflow in H. destruct (loops s) as [|v r] eqn:Hl; inv_some H; rewrite ?Hl in *.
+      * cons_solve CE CT.
+      * constructor; cbn; rewrite ?Hl; auto.
+    + inv_some H. constructor; cbn; auto.
+    + inv_some H. unfold put. destruct (loops s) as [|v r] eqn:Hl; [destruct (running s)|]; rewrite ?Hl in *.
+      * constructor; cbn; rewrite ?Hl; auto.
+      * constructor; cbn; rewrite ?Hl; auto.
+      * cons_solve CE CT.
+    + destruct (Z.leb due (now s)); [|discriminate]. inv_some H. constructor; cbn; auto.
+    + destruct (lock_free s); [|discriminate]. inv_some H. constructor; cbn; auto.
+    + inv_some H. destruct (release_check tau s).
+      * unfold do_release. constructor; cbn.
+        -- intro x. specialize (CE x). unfold occ in *. rewrite ?count_occ_app in *. cbn. lia.
+        -- cbn. lia.
+      * constructor; cbn; auto.
+    + unfold run_workflow in H. destruct (loops s) as [|v r] eqn:Hl; inv_some H; rewrite ?Hl in *.
+      * cons_solve CE CT.
+      * constructor; cbn; rewrite ?Hl; auto.
+    + discriminate.
+  - apply tick_inv in H. destruct H as (v & r & k & v' & Hl & Hc & Hf & ->).
+    destruct (mail v) as [|e m] eqn:Hm; inversion Hf; subst; clear Hf. rewrite Hl in *.
+    destruct (marked v); cons_solve CE CT.
+    all: rewrite Hm in *; occ_norm.
+  - destruct (busy s) as [|b]; [discriminate|].
+    apply tick_inv in H. destruct H as (v & r & k & v' & Hl & Hc & Hf & ->). inversion Hf; subst; clear Hf.
+    rewrite Hl in *. destruct (marked v), retry, wait; cons_solve CE CT.
+  - destruct is_retry; apply tick_inv in H; destruct H as (v & r & k & v' & Hl & Hc & Hf & ->);
+    [destruct (retries v) as [|n] eqn:Hr|destruct (sched v) as [|n] eqn:Hr]; inversion Hf; subst; clear Hf;
+    rewrite Hl in *; (destruct (marked v); cons_solve CE CT); rewrite ?Hr in *; try lia.
+  - destruct (Nat.eqb (busy s) 0 && running s); [|discriminate].
+    apply with_head_inv in H. destruct H as (v & r & k & v' & Hl & Hf & ->).
+    destruct (idle_cap v); [discriminate|]. destruct (retries v) eqn:Hr; inversion Hf; subst; clear Hf.
+    rewrite Hl in *. cons_solve CE CT. all: rewrite ?Hr in *; try lia.
+  - apply with_head_inv in H. destruct H as (v & r & k & v' & Hl & Hf & ->).
+    destruct (idle_cap v); inversion Hf; subst; clear Hf. rewrite Hl in *. cons_solve CE CT.
+  - destruct (busy s); [discriminate|]. destruct (loops s) as [|v r] eqn:Hl; [discriminate|].
+    destruct (idle_cap v); [discriminate|]. inv_some H. cons_solve CE CT.
+  - inv_some H. constructor; cbn.
+    + intro x. specialize (CE x). unfold occ in *. rewrite ?count_occ_app in *. cbn. lia.
+    + lia.
+  - destruct (resumed s); [discriminate|].
+    destruct (running s && match idle_since s with None => true | Some _ => false end && negb (active s));
+      inv_some H; constructor; cbn; auto.
+Qed.
+
+Lemma CInv_run tau : forall tr s s', GInv s -> CInv s -> run tau s tr = Some s' -> CInv s'.
+Proof.
+  induction tr as [|a r IH]; cbn; intros s s' GI C H.
+  - injection H as <-. exact C.
+  - destruct (step tau s a) as [s1|] eqn:Hs; [|discriminate].
+    eapply IH; [eapply GInv_step; eauto| |exact H].
+    apply step_split in Hs. destruct Hs as (s0 & H0 & ->).
+    destruct (CInv_step0 _ _ _ _ GI C H0) as [CE CT]. constructor; cbn; auto.
+Qed.
+
+(* ---------- packaged statements (used by Properties/C26.v, C36.v, C14.v) ---------- *)
+Section Packaged.
+Variable tau : Z.
+
+Theorem ir_one_loop tr s : run tau init tr = Some s -> (length (loops s) <= 1)%nat.
+Proof. intro H. exact (g_one_loop _ (reachable_GInv _ _ _ H)). Qed.
+
+Theorem ir_loop_only_if_active tr s : run tau init tr = Some s -> active s = false -> loops s = [].
+Proof. intro H. exact (g_live_active _ (reachable_GInv _ _ _ H)). Qed.
+
+Theorem ir_lock_exclusive tr s : run tau init tr = Some s -> (count holds (tasks s) <= 1)%nat.
+Proof. intro H. exact (g_lock _ (reachable_GInv _ _ _ H)). Qed.
+
+Theorem ir_one_owner tr s : run tau init tr = Some s -> raced (g s) = false ->
+  (reloads (g s) <= 1)%nat /\ guard_hits (g s) = 0%nat /\ undeliv (g s) = [] /\ misfailed (g s) = 0%nat.
+Proof.
+  intros H Hr. destruct (reachable_Inv _ _ _ H) as (_ & _ & NI).
+  destruct (NI Hr) as [_ _ _ (K4a & K4b & K4c) (K5a & _) _ _ _ _ _]. auto.
+Qed.
+
+Theorem ir_release_only_quiescent tr s : run tau init tr = Some s -> raced (g s) = false ->
+  rel_busy (g s) = 0%nat /\ lost_retries (g s) = 0%nat.
+Proof.
+  intros H Hr. destruct (reachable_Inv _ _ _ H) as (_ & _ & NI).
+  destruct (NI Hr) as [_ _ _ _ _ _ _ _ KR KL]. auto.
+Qed.
+
+Theorem ir_safe_release_partial tr s : run_truthful tau init tr = true -> run tau init tr = Some s ->
+  rel_work (g s) = 0%nat /\ lost (g s) = [] /\ lost_timers (g s) = 0%nat /\ lost_retries (g s) = 0%nat.
+Proof. intros Ht H. exact (tm_clean _ (TM_run _ _ _ _ TM_init Ht H)). Qed.
+
+Theorem ir_events_conserved tr s : run tau init tr = Some s -> forall x,
+  occ (delivered (g s)) x =
+  (occ (log s) x + occ (all_mail (loops s)) x + occ (lost (g s)) x + occ (dropped (g s)) x)%nat.
+Proof. intro H. exact (c_events _ (CInv_run _ _ _ _ GInv_init CInv_init H)). Qed.
+
+Theorem ir_timers_conserved tr s : run tau init tr = Some s ->
+  t_sched (g s) = (t_woke (g s) + sum_sched (loops s) + sum_retries (loops s) + lost_timers (g s)
+                   + lost_retries (g s) + t_dropped (g s))%nat.
+Proof. intro H. exact (c_timers _ (CInv_run _ _ _ _ GInv_init CInv_init H)). Qed.
+
+Theorem ir_released_is_marked_idle tr s : run tau init tr = Some s -> released (g s) = true ->
+  idle_since s <> None /\ active s = false /\ loops s = [].
+Proof.
+  intros H Hr. pose proof (reachable_GInv _ _ _ H) as GI.
+  destruct (g_released _ GI Hr) as (A & B & _). split; [exact A|]. split; [exact B|].
+  exact (g_live_active _ GI B).
+Qed.
+
+Theorem ir_releaser_pending tr s : run tau init tr = Some s -> raced (g s) = false -> TP tau s.
+Proof. intros H Hr. eapply TP_run; [apply Inv_init|apply TP_init|exact H|exact Hr]. Qed.
+
+Theorem ir_releaser_woken_is_due tr s p : run tau init tr = Some s -> In p (tasks s) -> due_ok (now s) p.
+Proof.
+  intros H Hin. pose proof (g_due _ (reachable_GInv _ _ _ H)) as G5. rewrite Forall_forall in G5. auto.
+Qed.
+
+(* the idle announcement marks the handler idle with a time that is not in the future *)
+Theorem ir_idle_event_marks tr s s' : run tau init tr = Some s -> step tau s EIdleWrite = Some s' ->
+  exists t, idle_since s' = Some t /\ t <= now s' /\ In (RSleep (now s' + tau)) (tasks s').
+Proof.
+  intros H Hs. pose proof (reachable_GInv _ _ _ H) as GI.
+  apply step_split in Hs. destruct Hs as (s0 & H0 & ->). cbn [step0] in H0.
+  apply with_head_inv in H0. destruct H0 as (v & r & k & v' & Hl & Hf & ->).
+  destruct (idle_cap v) as [t|] eqn:Hc; inversion Hf; subst. cbn. exists t. split; [reflexivity|].
+  destruct GI as [_ _ _ _ _ G6 _ _ _ _]. rewrite Hl in G6. inversion G6; subst. unfold cap_ok in H2. rewrite Hc in H2.
+  split; [exact H2|]. apply in_or_app. right. left. reflexivity.
+Qed.
+
+(* no idle announcement while a retry waits out its delay *)
+Theorem ir_no_idle_while_retry_pending s s' : step tau s EIdleDecide = Some s' ->
+  busy s = 0%nat /\ exists v r, loops s = v :: r /\ retries v = 0%nat.
+Proof.
+  intro Hs. apply step_split in Hs. destruct Hs as (s0 & H0 & ->). cbn [step0] in H0.
+  destruct (Nat.eqb (busy s) 0 && running s) eqn:Hg; [|discriminate].
+  apply andb_prop in Hg. destruct Hg as (Hb & _). apply Nat.eqb_eq in Hb. split; [exact Hb|].
+  apply with_head_inv in H0. destruct H0 as (v & r & k & v' & Hl & Hf & ->).
+  destruct (idle_cap v); [discriminate|]. destruct (retries v) eqn:Hr; [|discriminate]. eauto.
+Qed.
+End Packaged.
+
+(* ---------- reload on demand: the next event sent to a released run ---------- *)
+Lemma nth_error_app_len {A} (l : list A) x : nth_error (l ++ [x]) (length l) = Some x.
+Proof. induction l; cbn; auto. Qed.
+Lemma upd_app_len {A} (l : list A) x y : upd (length l) y (l ++ [x]) = l ++ [y].
+Proof. induction l; cbn; congruence. Qed.
+Lemma forallb_app_single {A} f (l : list A) x : forallb f (l ++ [x]) = forallb f l && f x.
+Proof. rewrite forallb_app. cbn. rewrite andb_true_r. reflexivity. Qed.
+
+Lemma step_task tau s i s0 : task_step tau s i = Some s0 ->
+  step tau s (Task i) = Some (set_raced s0 (raced (g s0) || race_now s0)).
+Proof. intro H. unfold step. cbn [step0]. rewrite H. reflexivity. Qed.
+
+Lemma lock_free_set_raced s b : lock_free (set_raced s b) = lock_free s.
+Proof. reflexivity. Qed.
+
+Theorem ir_reload_on_send tau s e :
+  started s = true -> active s = false -> loops s = [] -> lock_free s = true ->
+  let i := length (tasks s) in
+  exists s', run tau s [Send e; Task i; Task i; Task i; Task i] = Some s' /\
+    active s' = true /\ idle_since s' = None /\ busy s' = busy s /\ log s' = log s /\
+    loops s' = [{| mail := [e] ; retries := 0 ; sched := 0 ; idle_cap := None ; marked := false |}] /\
+    nth_error (tasks s') i = Some Done /\ reloads (g s') = S (reloads (g s)).
+Proof.
+  intros Hst Ha Hl Hlf i. cbn [run].
+  (* Send *)
+  assert (E1 : exists s1, step tau s (Send e) = Some s1 /\ tasks s1 = tasks s ++ [SWant e] /\
+            active s1 = false /\ loops s1 = [] /\ busy s1 = busy s /\ log s1 = log s /\
+            reloads (g s1) = reloads (g s)).
+  { unfold step. cbn [step0]. rewrite Hst. eexists. split; [reflexivity|]. cbn. auto 10. }
+  destruct E1 as (s1 & -> & T1 & A1 & L1 & B1 & G1 & R1).
+  (* SWant -> SReloading *)
+  assert (E2 : exists s2, step tau s1 (Task i) = Some s2 /\ tasks s2 = tasks s ++ [SReloading e] /\
+            active s2 = false /\ loops s2 = [] /\ busy s2 = busy s /\ log s2 = log s /\
+            reloads (g s2) = reloads (g s)).
+  { eexists. split.
+    - apply step_task. unfold task_step. rewrite T1. subst i. rewrite nth_error_app_len.
+      replace (lock_free s1) with true
+        by (unfold lock_free in *; rewrite T1, forallb_app_single, Hlf; reflexivity).
+      rewrite A1. reflexivity.
+    - cbn. rewrite T1. subst i. rewrite upd_app_len. auto 10. }
+  destruct E2 as (s2 & -> & T2 & A2 & L2 & B2 & G2 & R2).
+  (* SReloading -> SReloaded *)
+  assert (E3 : exists s3, step tau s2 (Task i) = Some s3 /\ tasks s3 = tasks s ++ [SReloaded e] /\
+            active s3 = true /\ loops s3 = [fresh] /\ busy s3 = busy s /\ log s3 = log s /\
+            reloads (g s3) = S (reloads (g s))).
+  { eexists. split.
+    - apply step_task. unfold task_step. rewrite T2. subst i. rewrite nth_error_app_len.
+      unfold run_workflow. rewrite L2. reflexivity.
+    - cbn. rewrite T2. subst i. rewrite upd_app_len. rewrite R2. auto 10. }
+  destruct E3 as (s3 & -> & T3 & A3 & L3 & B3 & G3 & R3).
+  (* SReloaded -> SCleared *)
+  assert (E4 : exists s4, step tau s3 (Task i) = Some s4 /\ tasks s4 = tasks s ++ [SCleared e] /\
+            active s4 = true /\ loops s4 = [fresh] /\ busy s4 = busy s /\ log s4 = log s /\
+            reloads (g s4) = S (reloads (g s)) /\ idle_since s4 = None).
+  { eexists. split.
+    - apply step_task. unfold task_step. rewrite T3. subst i. rewrite nth_error_app_len. reflexivity.
+    - cbn. rewrite T3. subst i. rewrite upd_app_len. auto 10. }
+  destruct E4 as (s4 & -> & T4 & A4 & L4 & B4 & G4 & R4 & I4).
+  (* SCleared -> Done *)
+  assert (E5 : step tau s4 (Task i) = Some (set_raced (set_task (put e s4) i Done)
+                 (raced (g (set_task (put e s4) i Done)) || race_now (set_task (put e s4) i Done)))).
+  { apply step_task. unfold task_step. rewrite T4. subst i. rewrite nth_error_app_len. reflexivity. }
+  rewrite E5. eexists. split; [reflexivity|].
+  unfold put. rewrite L4. cbn. rewrite T4. subst i. rewrite upd_app_len, nth_error_app_len. auto 10.
 Qed.
